@@ -317,10 +317,38 @@ def body(ctx):
     return run
 
 
+def limit_cache_body(ctx):
+    from pbt.checks import c17
+
+    def run(case):
+        msg, sig, info = c17.run_case(ctx.scratch, case)
+        ctx.record(case=case, nontrivial='reorg_brings_history_back_under_limit' in info['classes'],
+                   classes=['limit_cache'] + sorted('limit_cache.' + c for c in info['classes']
+                                                    if c.startswith('reorg_')),
+                   sample={'check': 'c10.limit_cache', 'max_send': case['max_send'],
+                           'scripts': case['scripts']})
+        if msg:
+            raise Violation(msg, 'stale_limit_answer')
+    return run
+
+
+def limit_cache_cases():
+    '''C17's long-history fixture, always with the block that takes a script to its limit and the
+    reorganisation that takes it back: what was cached on the way (a history, a "history too
+    large" error) must not be what is served afterwards.'''
+    from pbt.checks import c17
+    return c17.CASE.map(lambda c: dict(c, push=True, pop=True, triples=c['triples'][:1]))
+
+
 def run(ctx):
-    hyp_run(ctx, 'c10.machine', case_strategy(True), body(ctx), ctx.pick(150, 15000))
+    hyp_run(ctx, 'c10.machine', case_strategy(True), body(ctx), ctx.pick(150, 15000), frac=0.8)
+    hyp_run(ctx, 'c10.limit_cache', limit_cache_cases(), limit_cache_body(ctx), ctx.pick(6, 400))
 
 
 def replay(ctx, check, case):
+    if check == 'c10.limit_cache':
+        from pbt.checks import c17
+        msg, sig, _ = c17.run_case(ctx.scratch, case)
+        return (msg, 'stale_limit_answer') if msg else None
     msg, sig, _ = run_case(ctx.scratch, case)
     return (msg, sig) if msg else None
